@@ -114,6 +114,7 @@ pub struct PairWorld {
     pub lp: Addr,
     pub assets: [AssetInfo; 2],
     pub decimals: [u8; 2],
+    pub foreign: Addr,
 }
 
 /// kinds: false = native, true = cw20
@@ -132,6 +133,7 @@ pub fn deploy_pair(kinds: [bool; 2], decimals: [u8; 2], fees: PoolFee, pair_type
         }
     }
     let assets = [infos[0].clone(), infos[1].clone()];
+    let foreign = deploy_cw20(&mut app, cw20_code, "TOKX", 6);
     let pair = app.instantiate_contract(
         pair_code, Addr::unchecked(OWNER),
         &pair::InstantiateMsg {
@@ -142,7 +144,7 @@ pub fn deploy_pair(kinds: [bool; 2], decimals: [u8; 2], fees: PoolFee, pair_type
     ).map_err(|e| format!("{:#}", e))?;
     let info: PairInfo = app.wrap().query_wasm_smart(&pair, &pair::QueryMsg::Pair {}).unwrap();
     let lp = match info.liquidity_token { AssetInfo::Token { contract_addr } => Addr::unchecked(contract_addr), _ => panic!("native lp") };
-    Ok(PairWorld { app, pair, lp, assets, decimals })
+    Ok(PairWorld { app, pair, lp, assets, decimals, foreign })
 }
 
 impl PairWorld {
@@ -171,14 +173,18 @@ impl PairWorld {
         }
     }
     pub fn provide(&mut self, who: &str, d0: u128, d1: u128, tol: Option<Decimal>, receiver: Option<String>) -> anyhow::Result<AppResponse> {
+        self.provide_ext(who, d0, d1, tol, receiver, false, None)
+    }
+    /// `rev`: pass the two assets in reversed order; `sent`: attach these native amounts instead of the declared ones
+    pub fn provide_ext(&mut self, who: &str, d0: u128, d1: u128, tol: Option<Decimal>, receiver: Option<String>, rev: bool, sent: Option<(u128, u128)>) -> anyhow::Result<AppResponse> {
         self.allow(who, 0, d0);
         self.allow(who, 1, d1);
-        let funds = self.funds_for(&[(0, d0), (1, d1)]);
+        let (s0, s1) = sent.unwrap_or((d0, d1));
+        let funds = self.funds_for(&[(0, s0), (1, s1)]);
+        let a0 = Asset { info: self.assets[0].clone(), amount: Uint128::new(d0) };
+        let a1 = Asset { info: self.assets[1].clone(), amount: Uint128::new(d1) };
         self.app.execute_contract(Addr::unchecked(who), self.pair.clone(),
-            &pair::ExecuteMsg::ProvideLiquidity {
-                assets: [Asset { info: self.assets[0].clone(), amount: Uint128::new(d0) },
-                         Asset { info: self.assets[1].clone(), amount: Uint128::new(d1) }],
-                slippage_tolerance: tol, receiver }, &funds)
+            &pair::ExecuteMsg::ProvideLiquidity { assets: if rev { [a1, a0] } else { [a0, a1] }, slippage_tolerance: tol, receiver }, &funds)
     }
     pub fn withdraw(&mut self, who: &str, amount: u128) -> anyhow::Result<AppResponse> {
         self.app.execute_contract(Addr::unchecked(who), self.lp.clone(),
